@@ -352,6 +352,19 @@ func runCase1(input string) string {
 		_, _ = config.ReadAmmoConfig(fsys, hp)
 		_, _ = config.ReadAmmoConfig(fsys, yp)
 	}
+	if hi := m["hi"]; hi != "" {
+		// more history (history.go): accepted and REJECTED descriptions converted from the same two paths first
+		if !validHistory(hi) {
+			return "BADINPUT history"
+		}
+		for i := 0; i < len(hi); i++ {
+			ph, py, _ := historyFiles(hi[i], sx, i)
+			write(hp, ph)
+			write(yp, py)
+			_, _ = config.ReadAmmoConfig(fsys, hp)
+			_, _ = config.ReadAmmoConfig(fsys, yp)
+		}
+	}
 	write(hp, hclText)
 	write(yp, yamlText)
 	if ff := m["ff"]; ff != "" {
@@ -490,6 +503,9 @@ func class(input, obs string) string {
 		if hf.idx > 0 {
 			parts = append(parts, "local-member")
 		}
+		if hf.nulls > 0 {
+			parts = append(parts, "null-local")
+		}
 	}
 	switch m["mal"] {
 	case "1":
@@ -511,6 +527,9 @@ func class(input, obs string) string {
 	}
 	if m["enc"] != "" {
 		parts = append(parts, "saved-"+m["enc"])
+	}
+	if m["hi"] != "" {
+		parts = append(parts, "history")
 	}
 	if ff := m["ff"]; ff != "" {
 		parts = append(parts, "io-fault-"+strings.TrimRight(strings.Split(ff, "+")[0], "0123456789"))
@@ -986,6 +1005,91 @@ func (g *gen) describe() *Node {
 	return nMap(g.shuffle(top))
 }
 
+// optionalAttrs: the SCALAR arguments both syntaxes allow to leave out (pointers to string / number / bool in the HCL
+// structs: gohcl stores `x = null` as a nil pointer, i.e. "left out").  Not listed: the optional collections
+// (`fields`, `variables`, `mapping`, `headers`, `body`, `payload`, `metadata`: pointer to slice / map) — for those gocty
+// allocates the pointer and stores a nil collection, yaml.v2 then writes `fields: []`, which is an EMPTY list, not an
+// absent one (and a key the selected plugin may not know): `x = null` is not a spelling of "left out" for them.
+var optionalAttrs = map[string][]string{
+	"variable_source": {"file", "ignore_first_line", "delimiter"},
+	"request":         {"tag", "body"},
+	"call":            {"tag"},
+	"scenario":        {"weight", "min_waiting_time"},
+	"reqpost":         {"status_code"},
+	"callpost":        {"status_code"},
+	"size":            {"val", "op"},
+}
+
+// nulls: optional arguments the description leaves out are listed explicitly as null (the HCL printer spells them as
+// `x = null`, `x = local.z` with `z = null` in a locals block, or through a derived local; the YAML printer leaves
+// them out)
+func (g *gen) nulls(d *Node) {
+	add := func(n *Node, st string) {
+		if n == nil || n.K != 'm' {
+			return
+		}
+		for _, k := range optionalAttrs[st] {
+			if n.get(k) == nil && g.chance(60) {
+				n.M = append(n.M, KV{k, nNull()})
+			}
+		}
+	}
+	each := func(l *Node, f func(*Node)) {
+		if l != nil {
+			for _, x := range l.L {
+				f(x)
+			}
+		}
+	}
+	each(d.get("variable_source"), func(x *Node) { add(x, "variable_source") })
+	each(d.get("scenario"), func(x *Node) { add(x, "scenario") })
+	each(d.get("request"), func(x *Node) {
+		add(x, "request")
+		each(x.get("postprocessor"), func(p *Node) {
+			if t := p.get("type"); t != nil && t.S == "assert/response" {
+				add(p, "reqpost")
+				add(p.get("size"), "size")
+			}
+		})
+	})
+	each(d.get("call"), func(x *Node) {
+		add(x, "call")
+		each(x.get("postprocessor"), func(p *Node) { add(p, "callpost") })
+	})
+}
+
+// sparse: drop sections and optional fields (never what a scenario refers to)
+func (g *gen) sparse(d *Node) {
+	drop := func(n *Node, keys ...string) {
+		var m []KV
+		for _, kv := range n.M {
+			keep := true
+			for _, k := range keys {
+				if kv.K == k && g.chance(65) {
+					keep = false
+				}
+			}
+			if keep {
+				m = append(m, kv)
+			}
+		}
+		n.M = m
+	}
+	drop(d, "variable_source")
+	for _, key := range []string{"request", "call"} {
+		if l := d.get(key); l != nil {
+			for _, st := range l.L {
+				drop(st, "tag", "body", "metadata", "preprocessor", "postprocessor", "templater")
+			}
+		}
+	}
+	if l := d.get("scenario"); l != nil {
+		for _, sc := range l.L {
+			drop(sc, "weight", "min_waiting_time")
+		}
+	}
+}
+
 // multiline: bodies / payloads of several lines that end in a line break (heredoc / literal block scalar material),
 // incl. blank lines, indented lines, lines that look like YAML or HCL syntax
 var wordsLines = []string{"{", "}", "  \"user_id\": {{.request.auth_req.preprocessor.user_id}},", "  indented: yes", "key: value", "- item", "a=1&b=2",
@@ -1278,6 +1382,8 @@ func generate(r *rand.Rand, tier string) []string {
 		case x < 28:
 			nb = "nb=1"
 			g.boundaries(d)
+		case x < 40:
+			g.nulls(d)
 		}
 		if g.chance(12) {
 			names = nameTokens(g.r)
@@ -1289,7 +1395,11 @@ func generate(r *rand.Rand, tier string) []string {
 		if g.chance(6) {
 			enc = "enc=" + g.pick(encModes)
 		}
-		out = append(out, line(r.Int63n(1<<40), mal, d, nb, names, co, enc))
+		hi := ""
+		if g.chance(30) {
+			hi = "hi=" + historyToken(g.r)
+		}
+		out = append(out, line(r.Int63n(1<<40), mal, d, nb, names, co, enc, hi))
 	}
 	// exhaustive small enumerations: all of them in the thorough tier, a random sample in the quick tier
 	k := 150
@@ -1341,6 +1451,30 @@ func generate(r *rand.Rand, tier string) []string {
 		d := g.describe()
 		g.enlarge(d, 80+r.Intn(220))
 		out = append(out, line(r.Int63n(1<<40), 0, d, "big=1"))
+	}
+	// HISTORIES (history.go): SPARSE descriptions (sections and optional fields left out: whatever a rendering leaves
+	// out could be inherited from an earlier conversion) after one to three other conversions, half of them rejected
+	// by the common decoder after the HCL side was marshalled
+	nh := 150
+	if tier == "thorough" {
+		nh = 2500
+	}
+	for i := 0; i < nh; i++ {
+		d := g.describe()
+		g.sparse(d)
+		out = append(out, line(r.Int63n(1<<40), 0, d, "hi="+historyToken(r)))
+	}
+	// optional arguments left out as NULL — literally, through a local whose value is null, through a local derived
+	// from it; and strings as coalesce(local.z, "value") with z = null (a local may hold null and be referenced later)
+	nn := 120
+	if tier == "thorough" {
+		nn = 2000
+	}
+	for i := 0; i < nn; i++ {
+		d := g.describe()
+		g.nulls(d)
+		sx := r.Int63n(1<<40)/3*3 + 1 + int64(i%2)
+		out = append(out, line(sx, 0, d))
 	}
 	// how the files are SAVED (enc.go): CRLF line terminators (all / some / first / all but the first / one file only);
 	// the descriptions of this stream carry multi-line bodies and payloads, which the printers spell as heredocs and
